@@ -174,6 +174,25 @@ fn run(ctx: &RunCtx) -> Report {
         };
         let extra_box: Box<[dht::Node]> = extra.into_boxed_slice();
         sim.call(writer, "put+extra", move |d| async move { Outcome::Put(d.put(request, Some(extra_box)).await) })
+    } else if kind <= 1 && rng.chance(1, 5) {
+        // extra nodes that never gave a write token (the result of a find_node): they must be skipped
+        let o = sim.find_node(writer, if rng.chance(1, 2) { rng.id() } else { target });
+        sim.run_ops(&[o], sim.now() + 30 * SEC);
+        let mut extra: Vec<dht::Node> = vec![];
+        if let Some(Outcome::Nodes(ns)) = sim.take_outcome(o) {
+            extra = ns.iter().filter(|n| n.token().is_none()).cloned().collect();
+        }
+        report.probe("tokenless_extra_nodes", extra.len() as u64);
+        let request = if kind == 0 {
+            PutRequestSpecific::PutImmutable(PutImmutableRequestArguments {
+                target: crate::api::id(&target),
+                v: value.clone().into_boxed_slice(),
+            })
+        } else {
+            PutRequestSpecific::PutMutable(PutMutableRequestArguments::from(item.clone(), None))
+        };
+        let extra_box: Box<[dht::Node]> = extra.into_boxed_slice();
+        sim.call(writer, "put+tokenless-extra", move |d| async move { Outcome::Put(d.put(request, Some(extra_box)).await) })
     } else {
         match kind {
             0 => sim.put_immutable(writer, value.clone()),
